@@ -17,7 +17,7 @@ PROPS = {
         kani=True,
         slices=["time", "network", "net_enum", "network_new"],
         witness_family="net",
-        level_text="Verus proves, for all networks satisfying Network::wf and all node pairs, that the real Network::can_reach / minimal_duration_between_nodes equal the timing rule written from the property statement; of the JSON loader the per-segment computations of create_service_trips are proved (R8 fragments): arrival = departure + route-segment duration, distance, seated passengers and formation limit are the route segment's / departure segment's own values, and the node is built from exactly these values in the right fields; the look-ups by id, the zero-passengers rule and the loops of the loader are pinned by skeleton hashes, not proved",
+        level_text="Verus proves, for all networks satisfying Network::wf and all node pairs, that the real Network::can_reach / minimal_duration_between_nodes equal the timing rule written from the property statement; of the JSON loader the per-segment computations of create_service_trips are proved (R8 fragments): arrival = departure + route-segment duration, distance, seated passengers and formation limit are the route segment's / departure segment's own values, and the node is built from exactly these values in the right fields; a maintenance slot's node carries the slot's own id, location, times and track count; a given depot gets its own total capacity and exactly its listed per-type capacities; the look-ups by id, the zero-passengers rule and the loops of the loader are pinned by skeleton hashes, not proved",
         level_note="trusted: vstd specs, key-model axioms for derived Hash, structural derived Eq/Ord; instance validity (Network::wf) is a precondition",
         scope="can_reach / minimal_duration_between_nodes equal the documented timing rule for all networks and node pairs; successors/predecessors: the scanned key range contains every reachable node and the filter keeps exactly the reachable ones (ties included); Network::new / create_network / create_depots (R8 fragments): the overflow depot has no per-type limit and capacity >= every demand the flow stage can raise, default depots get capacity = number of service trips for every type; create_service_trips (R8 fragments): per-segment node data",
         assumptions=A_COMMON + [
@@ -160,8 +160,24 @@ PROPS["C07"] = dict(
     ],
 )
 
+ALL_SLICES = ["time", "network", "net_enum", "limits", "json_out", "tour_pos", "tour_mod", "path", "tour_ctor", "formation", "transition",
+              "tsp_ranges", "admission", "reassign", "pipeline", "mcf_bounds", "sched_guard", "depot_usage", "network_new", "json_writer",
+              "objective", "train_formation_update", "update_tours"]
+PROPS["C06"] = dict(
+    slices=["time", "network_new", "tsp_ranges", "mcf_bounds", "limits", "objective", "pipeline", "json_out"],
+    thorough_slices=ALL_SLICES,
+    witness_family=None,
+    level_text="per-function totality only: for every function under contract (quick tier: the stage-entry functions and the two places where the unchanged code used to panic -- overflow depot capacity, D5, and the 3-opt index ranges, D7 -- plus the time arithmetic, limits, objective and pipeline wiring; thorough tier: every slice) Verus proves that, under the function's stated preconditions (parts of instance validity and of schedule validity), no unwrap / expect / index / slice / division / explicit panic! is reachable, no integer operation overflows or underflows (so the optimised build and the build with arithmetic checks agree) and every loop terminates (decreases clauses; for-loops over finite sequences). That the preconditions hold along the whole pipeline, termination of the local search and of the external network simplex, and panic freedom of the functions not under contract are NOT decided",
+    level_note="trusted: as for the owning properties of each slice; stubs can hide panics of their bodies unless another slice verifies them (R7a/R7b classification in the evidence); println!/format! paths (R1, R9) and the SeqIter / im shims are assumed total",
+    scope="panic freedom, absence of overflow and termination of each function under contract, under its stated preconditions",
+    assumptions=A_COMMON + A_ITER + [
+        "pipeline-level composition: rayon parallel local search, rapid_solve's loop, rs_graph::mcf::network_simplex (termination and .unwrap() on its result beyond D5) are not under contract",
+        "preconditions of the functions under contract (instance validity Network::wf, schedule validity sched_ok, magnitudes) are assumed at each entry, not proved to be established by the callers outside the slices",
+        "functions of /repo that no slice verifies can still panic",
+    ],
+)
+
 NOT_APPLICABLE = {
-    "C06": "whole-pipeline termination and panic freedom through rayon and the external network simplex: liveness over histories, no thread support in either verifier; per-function totality is reported under the owning property",
     "C08": "the acceptance rule and fixpoint live in rapid_solve (rayon, channels, dyn objects); trajectory property. The one per-function part, the level order unserved passengers / maintenance violation / vehicle count / costs of objective::build, is proved under C04 (C04.build.*)",
     "C11": "neighbourhood candidates are compositions of schedule-level modifications generated under rayon; outside per-function contracts",
     "C14": "optimality of the circulation returned by rs_graph::mcf::network_simplex; the network construction is a 230-line loop over HashMaps with I/O",
